@@ -102,6 +102,11 @@ func c03paths() []c03path {
 				n.stray++
 				rec(append(ev, "stray-qos2-acks"), n)
 			}
+			// another session, which has nothing in flight, ends while the scripted deliveries are pending
+			if s.stray < 2 && s.stray >= 0 && anyPending && !faults && len(ev) <= 1 && !strings.Contains(strings.Join(ev, " "), "other-session-ends") {
+				n := clone()
+				rec(append(ev, "other-session-ends"), n)
+			}
 			if !s.dropped[0] {
 				n := clone()
 				n.dropped[0] = true
@@ -437,6 +442,9 @@ func TestC03Retransmission(t *testing.T) {
 								break
 							}
 						}
+					case ev == "other-session-ends":
+						q3.Drop()
+						w.Step()
 					case ev == "displace0":
 						// a new connection with the same client identifier takes sub0's place; sub0 notices at its next keep-alive exchange
 						nc := w.NewClient("sub0-again", 1, AckAll)
@@ -520,13 +528,22 @@ func TestC03Retransmission(t *testing.T) {
 					last := map[key]AckInsert{}
 					w.mu.Lock()
 					ins := append([]AckInsert{}, w.Node(1).AckInserts...)
+					acked := append([]AckInsert{}, w.Node(1).AckResolved...)
 					w.mu.Unlock()
+					ackedBetween := func(a, b AckInsert) bool {
+						for _, x := range acked {
+							if x.Session == a.Session && x.ID == a.ID && x.Seq > a.Seq && x.Seq < b.Seq {
+								return true
+							}
+						}
+						return false
+					}
 					for _, ai := range ins {
 						if ai.Err != "" {
 							continue
 						}
 						k := key{ai.Session, ai.ID, ai.Type}
-						if prev, ok := last[k]; ok && ai.At.Before(prev.Deadline.Add(-time.Second)) && ai.At.After(prev.At) {
+						if prev, ok := last[k]; ok && ai.At.Before(prev.Deadline.Add(-time.Second)) && ai.At.After(prev.At) && !ackedBetween(prev, ai) {
 							viol("c03-expired-before-its-deadline", "the exchange of session %s, identifier %d registered at +%v with deadline +%v was registered again at +%v: it was given up on %.1f s early", ai.Session, ai.ID, prev.At.Sub(ins[0].At), prev.Deadline.Sub(ins[0].At), ai.At.Sub(ins[0].At), prev.Deadline.Sub(ai.At).Seconds())
 							return
 						}
